@@ -12,6 +12,7 @@ import json
 from .. import corpus, faststorage, schedule, stream_events, streams, tlc, vela_run, weightbuf
 from ..common import Run, MachineryError, seed
 
+N_FC_BATCH, N_MEMONLY = 6, 2      # networks of the opt-in families per quick run (tiny: well below a second each)
 CONFIG_ARENA = {"Dedicated_Sram": 393216, "Dedicated_Sram_512KB": 524288}
 
 
@@ -77,6 +78,9 @@ def main(tier):
     # graph shapes (corpus_shapes.py); emphasis: depth-changing memory-only operators between NPU operators in spilling
     # memory modes, transposes of non-square feature maps, tensors leaving their subgraph, few channels on two cores
     jobs += corpus.shape_jobs(sd, tier, extra=["reshape_between"] * 3 + ["tr_hw"] * 2 + ["skip_out", "tiny_depth", "fsgroups", "fsgroups"], thorough=25)
+    # opt-in graph shapes: FULLY_CONNECTED with batches 1..17 (laid out over H x W by the compiler; alone = its result ends
+    # the arena), memory-only operators on tensors entering the NPU subgraph (copies from the arena into the fast storage)
+    jobs += corpus.shape_jobs(sd, tier, families=[], extra=["fc_batch"] * N_FC_BATCH + ["memonly_first"] * N_MEMONLY, thorough=12)
 
     def both(nng, arch, res):
         return {"fs": faststorage.extractor(nng, arch, res), "wb": weightbuf.extract(nng, arch, res)}
